@@ -7,7 +7,8 @@ every case below drives one genuine defect listed in DESIGN.md section 5 with it
 
 On the pinned tree it prints FAIL for the listed defects; with design/planned_repairs applied it
 prints PASS everywhere except the defects that are recorded as known findings (C04 deepcopy of a
-Mapping attribute, C11 stream context, C12 equal receivers), which are marked KNOWN.
+Mapping attribute, C08 cancellation while disposables enter, C11 stream context, C12 equal
+receivers), which are marked KNOWN.
 The static checks never import or run haiway; this script only shows that what they report is
 real behaviour and not a false alarm.
 """
@@ -255,6 +256,32 @@ async def async_cases() -> None:
         return "exit a" in log
 
     await aattempt("C08 already entered disposables are exited when another fails to enter", c08_enter)
+
+    async def c08_cancel_while_entering() -> bool:
+        log: list[str] = []
+
+        async def victim() -> None:
+            async with ctx.scope(
+                "x",
+                disposables=[disposable(log, "fast"), disposable(log, "slow", delay=1.0)],
+            ):
+                log.append("BODY")
+
+        task = asyncio.create_task(victim())
+        await asyncio.sleep(0.05)  # "fast" has entered, "slow" is still entering
+        task.cancel()
+        try:
+            await task
+        except asyncio.CancelledError:
+            pass
+        await asyncio.sleep(0.05)
+        return "enter fast" in log and "exit fast" in log and "BODY" not in log
+
+    await aattempt(
+        "C08 disposables entered before a cancellation of the concurrent enter are exited",
+        c08_cancel_while_entering,
+        known=True,
+    )
 
     async def c09_enter() -> bool:
         _log, completed, _label = await enter_failure()
